@@ -39,6 +39,21 @@
 (* the handed temperatures); expected-counterexample configs only.  The    *)
 (* exported vectors list the temperature component kinds that can be told  *)
 (* the vector's T (TempComponentKinds): binding A builds each in turn.     *)
+(*                                                                         *)
+(* Fifth round.  PRESENTATION of the profile inputs: the ELEMENT TYPE /    *)
+(* container in which the temperature (pressure, molecular-weight) profile *)
+(* is handed over (ElementTypes; float64 / float32 / int64 / int32 arrays, *)
+(* lists of ints / floats).  A presentation denotes the same profile       *)
+(* whenever its entries are the same numbers (integer types: whole         *)
+(* numbers -- the T of this model always are); the structure is a function *)
+(* of the NUMBERS, so g, H, dz, z stored under any presentation are the    *)
+(* real-valued ones (StructureIndependentOfElementType).  ElemType = the   *)
+(* presentation the recurrence was handed; WorkArrays =                    *)
+(* "inherit_element_type" models work arrays for g and H allocated with    *)
+(* the element type of the temperature input, so that under an integer     *)
+(* presentation g and H are truncated to whole numbers when stored         *)
+(* (expected-counterexample config only).  The exported vectors list the   *)
+(* presentations of the vector's T (`etypes`): binding A builds them.      *)
 (***************************************************************************)
 EXTENDS Atmosphere
 CONSTANTS NMax,          \* layers 1..NMax
@@ -55,6 +70,8 @@ CONSTANTS NMax,          \* layers 1..NMax
                          \* component does to the arrays the model shares with it
           RADS, GMS,     \* planet radius / GM (units)
           Slicing,       \* "layer" | "droplast"
+          ElemType,      \* element type / container in which the profile inputs are handed over (ElementTypes)
+          WorkArrays,    \* "float" | "inherit_element_type": the type of the arrays g and H are stored in
           TableEnds,     \* "nearest" | "swapped": which end of a tabulated T(P) an out-of-range layer takes
           Export
 VARIABLES phase, n, lev, lay, T, tab, mix, mu, rad, gm, i, z, g, H, prof
@@ -73,6 +90,15 @@ IAdd(a, b) == a + b
 Tables(nl) == {t \in [1..nl -> {ChemRows[j] : j \in 1..ChemPool}] : DistinctTable(t)}
 \* length-unit factors u (the structure is returned in units of 1/u "metres")
 US == {<<1, 1>>, <<1, 2>>, <<3, 1>>}
+
+\* presentations of a profile input (element type / container)
+ElementTypes == {"float64", "float32", "int64", "int32", "list_of_int", "list_of_float"}
+IntegerTypes == {"int64", "int32", "list_of_int"}
+\* those that denote the same profile as the float64 array with entries t (t: whole numbers of units)
+ElementPresentations(t) == {e \in ElementTypes : e \in IntegerTypes => \A k \in 1..Len(t) : t[k] \in Int}
+ASSUME ElemType \in ElementTypes /\ WorkArrays \in {"float", "inherit_element_type"}
+\* what a work array holds after the (non-negative) real x was stored in it
+Stored(x) == IF WorkArrays = "inherit_element_type" /\ ElemType \in IntegerTypes THEN <<x[1] \div x[2], 1>> ELSE x
 
 P10r(e) == IF e >= 0 THEN <<Pow(10, e), 1>> ELSE <<1, Pow(10, -e)>>
 kB == Q(1)
@@ -135,8 +161,8 @@ TempAfterChemRead(t) == IF ShareEffect = "read_scales_temperature"
 Step == /\ phase = "hydro" /\ i < n
         /\ LET k  == i + 1
                r2 == XMul(XAdd(Q(rad), z[k]), XAdd(Q(rad), z[k]))
-               gk == XDiv(Q(gm), r2)
-               Hk == XDiv(XMul(kB, Q(T[k])), XMul(mu[k], gk))
+               gk == Stored(XDiv(Q(gm), r2))
+               Hk == IF gk[1] = 0 THEN Q(0) ELSE Stored(XDiv(XMul(kB, Q(T[k])), XMul(mu[k], gk)))
                \* UnitAt = "loop": the thickness is converted before it is accumulated, so the next
                \* gravity is evaluated at an altitude in the wrong unit (ULoop = 1 otherwise)
                dz == XMul(XMul(Hk, Lr(k)), IF UnitAt = "loop" THEN Q(ULoop) ELSE Q(1))
@@ -214,6 +240,13 @@ GravityFallsOff == SeqStrictlyDecreasing(XLt, g) /\ \A k \in 1..Len(g) : XLt(Q(0
 StepRelation ==
     \A k \in 1..i : HydroStepRel(XMul, XAdd, REqual, z[k], z[k + 1], XSub(z[k + 1], z[k]), H[k], g[k],
                                  Q(T[k]), mu[k], Lr(k), Q(rad), Q(gm), kB)
+\* whatever the element type / container of the inputs (ElemType \in ElementPresentations(T)): what is stored
+\* for layer k is the REAL gravity at the bottom of the layer and the real scale height that follows from it
+StructureIndependentOfElementType ==
+    /\ ElemType \in ElementPresentations(T)
+    /\ \A k \in 1..i : LET r == XAdd(Q(rad), z[k])
+                        IN  /\ REqual(XMul(g[k], XMul(r, r)), Q(gm))
+                            /\ REqual(XMul(H[k], XMul(mu[k], g[k])), XMul(kB, Q(T[k])))
 \* what a route returns when asked for the length unit 1/u: everything of dimension length times u
 Returned(u) == [z |-> [k \in 1..Len(z) |-> IF UnitAt = "loop" THEN z[k] ELSE XMul(z[k], u)],
                 H |-> [k \in 1..Len(H) |-> XMul(H[k], u)],
@@ -265,7 +298,7 @@ Emit == (Export /\ phase = "done") =>
     PrintT(<<"VEC", ToJson([n |-> n, lev |-> lev, lay |-> lay, T |-> T, mu |-> mu, tab |-> tab, mix |-> mix,
                             den |-> ChemDen, w |-> GasW, rad |-> rad, gm |-> gm,
                             z |-> z, g |-> g, H |-> H, rho |-> [k \in 1..n |-> Rho(k)], prof |-> prof,
-                            tkinds |-> TempComponentKinds(T),
+                            tkinds |-> TempComponentKinds(T), etypes |-> ElementPresentations(T),
                             tables |-> [c \in TableCovers(n) |-> TableNodes(c, Lay2, T)],
                             inputs |-> [j \in 1..Len(OptionSeq) |->
                                           [orient |-> OptionSeq[j].orient, reverse |-> OptionSeq[j].reverse,
